@@ -139,6 +139,22 @@ def contracts():
           SUB % ('self.python_type', 'other.python_type'),
           SUB % ('other.python_type', 'self.python_type'))],
       serves=('C05', 'C06'))
+    # a declared type may also be a TUPLE of classes (Number is
+    # (int, float)): such a type is related to nothing - and comparing it
+    # with a single class must not blow up resolution with a TypeError
+    for tag, a, b in (('tuple-vs-class', 'tuple', 'type'),
+                      ('class-vs-tuple', 'type', 'tuple'),
+                      ('tuple-vs-tuple', 'tuple', 'tuple')):
+        c(Y + 'PythonType.is_specialization_of',
+          name='yaqltypes.PythonType.is_specialization_of/' + tag,
+          params=dict(self=pt, other=pt),
+          requires=['isinstance(self.python_type, "%s")' % a,
+                    'isinstance(other.python_type, "%s")' % b,
+                    'not (isinstance(self.python_type, "type") and '
+                    'isinstance(self.python_type, "tuple"))',
+                    'not (isinstance(other.python_type, "type") and '
+                    'isinstance(other.python_type, "tuple"))'],
+          ensures=['result is False'], serves=('C05', 'C06'))
     c(Y + 'PythonType.is_specialization_of',
       name='yaqltypes.PythonType.is_specialization_of/foreign',
       params=dict(self=pt, other=TVal),
